@@ -65,16 +65,18 @@ theorem splitScheme_clean {s : Bytes} (rest : Bytes) (hhead : ∃ c r, s = c :: 
     splitScheme (s ++ 58 :: rest) = (s, rest) := by
   obtain ⟨c0, r0, hs, hc0⟩ := hhead
   have h58 : 58 ∉ s := fun hm => (schemeChar_facts (hchars 58 hm).1).1 rfl
-  unfold splitScheme
-  rw [before_append _ h58, after_append _ h58]
   have h1 : (s ++ 58 :: rest).contains 58 = true := by simp
   have h2 : s.all isSchemeChar = true := by
     rw [List.all_eq_true]; exact fun c hc => (hchars c hc).1
   have h3 : asciiLower s = s := asciiLower_id (fun c hc => (hchars c hc).2)
-  rw [h1]
-  simp only [h2, h3]
-  subst hs
-  simp [hc0]
+  have hok : schemeOk (s ++ 58 :: rest) = true := by
+    unfold schemeOk
+    rw [before_append _ h58, h1, h2]
+    subst hs
+    simp [hc0]
+  unfold splitScheme
+  rw [hok, before_append _ h58, after_append _ h58, h3]
+  rfl
 
 theorem splitAuthority_render {s n p q : Bytes} (h : CleanParts s n p q) :
     splitAuthority (render s n p q) = (s, n, p ++ queryPart q) := by
